@@ -292,6 +292,10 @@ func (fs *FS) Rename(oldname, newname string) error {
 		if oldname == newname {
 			return nil
 		}
+		if newFile, err := fs.getFile(newname); err == nil && newFile.Mode().IsDir() {
+			// like os.Rename, never replace a directory with a file
+			return &hackpadfs.LinkError{Op: "rename", Old: oldname, New: newname, Err: hackpadfs.ErrExist}
+		}
 		contents, err := oldFile.fileData.Data()
 		if err != nil {
 			return err
